@@ -922,7 +922,11 @@ impl Shard {
         let nseq = plan.seq.len();
 
         let mut req = case.clone();
-        req["rootpath"] = json!(scratch.root_path().to_string_lossy());
+        // "root_override": the library's root is an existing host directory (e.g. "/") instead of the scratch tree
+        req["rootpath"] = match case.get("root_override").and_then(|v| v.as_str()) {
+            Some(o) => json!(o),
+            None => json!(scratch.root_path().to_string_lossy()),
+        };
         if let Some(o) = req.as_object_mut() {
             o.remove("tree");
             o.remove("sched");
